@@ -124,11 +124,22 @@ def run_history(case):
                 src.fail_after = op[1]           # the next source fetch (after op[2] good ones) fails after op[1] events
                 src.fail_skip = op[2] if len(op) > 2 else 0
             elif op[0] == "q":
-                _, a, b, rev = op
+                _, a, b, rev = op[:4]
                 n0 = len(src.log)
                 t_ev = clock.t
                 try:
-                    res = list(c.fetch(a, b, reverse=rev))
+                    if len(op) > 4 and op[4] == "ov" and b == a + 1 and not rev:
+                        # a POINT query on the cached timeline: overlapping(a) is defined through
+                        # fetch(a, a + 1), so it evicts, fills and answers like the slice does; what the slice
+                        # would have returned is read back from the sink (no clock reading, no eviction)
+                        pt = list(c.overlapping(a))
+                        res = list(c._fetch_sink(a, b, reverse=False))
+                        want = [x for x in res if x.finite_start <= a < x.finite_end]
+                        if [obs_iv(x, case["masked"]) for x in pt] != [obs_iv(x, case["masked"]) for x in want]:
+                            return {"err": f"overlapping({a}) on the cached timeline = {[obs_iv(x, case['masked']) for x in pt]}, "
+                                           f"the cached slice [{a}:{b}] holds {[obs_iv(x, case['masked']) for x in res]}"}
+                    else:
+                        res = list(c.fetch(a, b, reverse=rev))
                 except SourceFault:
                     failed.append(len(outs) + len(failed))
                     continue                     # the source's own exception reaches the caller: fine
@@ -206,7 +217,10 @@ class CacheFamily(Family):
                 if r < 0.6:
                     a = rng.choice(edges[:-1] + [rng.randrange(edges[0], 29)])
                     b = rng.choice([x for x in edges + [a + 1, a + 3] if x > a])
-                    ops.append(["q", a, b, rng.random() < 0.3])
+                    if rng.random() < 0.1:
+                        ops.append(["q", a, a + 1, False, "ov"])       # overlapping(a): a point query between slices
+                    else:
+                        ops.append(["q", a, b, rng.random() < 0.3])
                 elif r < 0.9 or not self.mutations:
                     ops.append(["adv", rng.choice([0, 1, max(0, ttl - 1), ttl, ttl + 1])])
                 else:
